@@ -351,7 +351,7 @@ class ScipyFit(Contract):
         for cls, which in ((verde.Linear, "Linear"), (verde.Cubic, "Cubic")):
             for rescale in (False, True):
                 for rank in (1, 2):
-                    arrs = _rand_coords(rng, nrng, 2, 1, scale=5.0) if rank == 2 else tuple(nrng.uniform(-5, 5, 8) for _ in range(3))
+                    arrs = tuple(nrng.uniform(-5, 5, (2, 4)) for _ in range(3)) if rank == 2 else tuple(nrng.uniform(-5, 5, 8) for _ in range(3))
                     est = cls(rescale=rescale)
                     est._which = which
                     yield (est, arrs[:2], arrs[2]), {}
